@@ -10,7 +10,7 @@ EXPLANATION = ("R15.1 every SwapInput the OpenPosition chains emit (increase, re
                "R15.3 ClosePosition asks the fluctuation query about the position's own closing direction and whole size; "
                "R15.4 partial close is chosen exactly when the query says over-limit and ratio < 1, with amount size*ratio/decimals; "
                "R15.5 the reference snapshot is the previous one iff the latest is from the current block and is not the first, and "
-               "both the execute-side check and the query pass their own Env unchanged.")
+               "both the execute-side check and the query pass their own Env unchanged. R15.6 the band formula p*(D -/+ r)/D around the reference snapshot and the compared current / post-trade prices.")
 NOT_DECIDED = "the band arithmetic (price from reserves, +/- limit)."
 
 VAMM = "margined_vamm"
